@@ -6,6 +6,7 @@ import Capella.Model.XmlEdit
 import Capella.Model.XmlNsUpdate
 import Capella.Model.XmlLoose
 import Capella.Model.XmlBytes
+import Capella.Model.XmlWide
 import Capella.Gen.Ns
 namespace Capella.Driver.Xml
 open Lean Capella.Driver Capella.Xml
@@ -103,8 +104,75 @@ def firstBad : List Edit → Doc → Nat → Option Nat
   | [], _, _ => none
   | e :: es, d, i => if e.ok d then firstBad es (e.apply d) (i + 1) else some i
 
+/-- node = element `[tag, ns, attrs, text, tail, [nodes…]]` or content-only node `["#", text, tail]` -/
+partial def nodeOf (j : Json) : Except String Node := do
+  let a ← j.getArr?
+  if a.size == 3 then
+    let t ← (← j.getArrVal? 1).getStr?
+    let tl ← optStr (← j.getArrVal? 2)
+    pure (.com t.toList tl)
+  else
+    let tag ← (← j.getArrVal? 0).getStr?
+    let ns ← pairs (← j.getArrVal? 1)
+    let attrs ← pairs (← j.getArrVal? 2)
+    let text ← optStr (← j.getArrVal? 3)
+    let tail ← optStr (← j.getArrVal? 4)
+    let kids ← (← (← j.getArrVal? 5).getArr?).toList.mapM nodeOf
+    pure (.el tag.toList ns attrs text tail kids)
+
+def werrName : WErr → String
+  | .writer e => errName e | .typeError => "TypeError"
+
+/-- column after writing `s` from column `p` (the driver's own copy of `Lemmas/XmlLayout.colAfter`) -/
+def colAfterD : Nat → List Char → Nat
+  | p, [] => p
+  | p, c :: s => if c = '\n' then colAfterD 0 s else colAfterD (p + 1) s
+
 def handle (op : String) (j : Json) : Except String Json := do
   match op with
+  | "xml.wide" =>
+    -- the statements of the widened round-trip theorems (`Props/C01`: writer_reads_only_the_view, parse_ser_wide,
+    -- leaf_tails_lost, ser_idempotent_wide), evaluated on one document
+    let ll ← getNat j "ll"
+    let d ← docOf (← j.getObjVal? "doc")
+    let out := serialize ll true [] true d
+    let file := declare "utf-8".toList ++ out
+    let wfW := wfDocW d
+    let wfV := wfDocV d
+    let lossy := !wfW
+    let rb := readBack lossy d
+    let p := parse file
+    let parseOk := match p with | some r => Doc.beq r rb | none => false
+    let idem := match p with | some r => serialize ll true [] true r == out | none => false
+    pure (Json.mkObj [("wfW", wfW), ("wfV", wfV), ("collapses", collapsesE d.root),
+      ("loses_tail", losesTailE true d.root),
+      ("view_same_bytes", serialize ll true [] true (viewDoc false d) == out && serialize ll true [] true (viewDoc true d) == out),
+      ("parse_is_readback", if wfV then Json.bool parseOk else Json.null),
+      ("idem", if wfV then Json.bool idem else Json.null),
+      ("readback", if wfV then docJson rb else Json.null)])
+  | "xml.serializeN" =>
+    let ll ← getNat j "ll"
+    let sib ← getBool j "siblings"
+    let pre ← (← (← j.getObjVal? "pre").getArr?).toList.mapM commentOf
+    let post ← (← (← j.getObjVal? "post").getArr?).toList.mapM commentOf
+    let root ← nodeOf (← j.getObjVal? "root")
+    match serializeN ll sib [] true pre root post with
+    | .error e => pure (Json.mkObj [("raises", werrName e), ("has_inner", root.hasCom)])
+    | .ok o => pure (Json.mkObj [("out", jstr o), ("has_inner", root.hasCom)])
+  | "xml.stag" =>
+    -- the statement of `stag_column_exact` on the start tag of a parentless element
+    let ll ← getNat j "ll"
+    let pos ← getNat j "pos"
+    let e ← elemOf (← j.getObjVal? "elem")
+    let nsmap := scope [] e.nsdecls
+    let tagS := unmap nsmap e.tag
+    let ws := unmappedAttrs [] nsmap e.attrs
+    let r := serAttrs ll 4 true ws (pos + 1 + utf8Len tagS) false
+    let col := colAfterD pos ('<' :: tagS ++ r.1)
+    let broke := r.1.contains '\n'
+    let surplus := utf8Len tagS - tagS.length
+    pure (Json.mkObj [("pos", r.2), ("col", col), ("broke", broke), ("surplus", surplus),
+      ("formula", r.2 == col + (if broke then 0 else surplus)), ("out", jstr ('<' :: tagS ++ r.1))])
   | "xml.encode" =>
     -- `s.encode("utf-8")` and the width the writer adds for a tag
     let s ← getStr j "s"
